@@ -27,16 +27,22 @@ CONSTANTS
     AB_ViewRestart,      \* as built: view::Iter does not latch exhaustion (yields Some after None)
     AB_AxisLenConst,     \* as built: AxisIter::len() never decreases
     AB_GetAxisOffByOne,  \* as built: get_axis tests axis > dims instead of axis >= dims
-    AB_View0Dim          \* as built: iterating a view with no remaining axes panics
+    AB_View0Dim,         \* as built: iterating a view with no remaining axes panics
+    NthArgs,             \* arguments n of Iterator::nth(n) explored in histories ({} = only next())
+    NthBudget,           \* at most this many nth() calls per history
+    NthMaxCells,         \* nth() is explored on arrays with at most this many cells
+    AB_NthUnclamped      \* as built (seeded change C19d): an O(1) nth() that moves the cursor past the end
 
 VARIABLES
     shape,      \* shape of the array under test
     obj,        \* the object whose call history this behaviour explores
     st,         \* operational cursor state of that object
-    h,          \* call history: sequence of [len |-> reported length before the call, next |-> result]
-    nones       \* number of None results so far
+    h,          \* call history: sequence of [len |-> reported length before the call, n |-> -1 for next() or
+                \*   the argument of nth(n), next |-> result]
+    nones,      \* number of None results so far
+    budget      \* nth() calls still allowed in this history
 
-vars == <<shape, obj, st, h, nones>>
+vars == <<shape, obj, st, h, nones, budget>>
 
 (* Results of fallible calls: Some(v), None, or a panic of the code under test *)
 Some(v) == [k |-> "some", v |-> v]
@@ -115,10 +121,11 @@ ViewStep(sh, o, s, axis) ==
                                axis - 1)
                  ELSE [s |-> [s EXCEPT !.coords[axis] = c], r |-> None]
 
+(* as coded since the fix of the restart defect: exhaustion is decided by the running index against the number of *)
+(* cells of the view (so an EMPTY view yields nothing at all) and the odometer is left alone afterwards          *)
 ViewNextRef(sh, o, s) ==
-    IF s.done THEN [s |-> s, r |-> None]
-    ELSE LET x == ViewStep(sh, o, s, Len(VShape(sh, o.a)))
-         IN  IF x.r = None THEN [s |-> [s EXCEPT !.done = TRUE], r |-> None] ELSE x
+    IF s.index >= Elements(VShape(sh, o.a)) THEN [s |-> s, r |-> None]
+    ELSE ViewStep(sh, o, s, Len(VShape(sh, o.a)))
 
 (* As built: no latch.  After None the odometer keeps its coordinates and continues; the *)
 (* offset may leave the data, in which case slice::get returns None.                      *)
@@ -149,9 +156,21 @@ NextOf(sh, o, s) ==
       [] o.kind = "view" ->
             IF AB_ViewRestart \/ AB_View0Dim THEN ViewNextAsBuilt(sh, o, s) ELSE ViewNextRef(sh, o, s)
 
+(* One nth(n) call = the std default: n times next(), stopping at the first None, then one more next() *)
+RECURSIVE NthRef(_, _, _, _)
+NthRef(sh, o, s, n) ==
+    LET x == NextOf(sh, o, s)
+    IN  IF n = 0 \/ ~IsSome(x.r) THEN x ELSE NthRef(sh, o, x.s, n - 1)
+
+(* as built (C19d): cursor += n without clamping, then next(); only the flat-cursor iterators had it *)
+NthOf(sh, o, s, n) ==
+    IF AB_NthUnclamped /\ o.kind \in {"indices", "freq"}
+    THEN NextOf(sh, o, [pos |-> s.pos + n])
+    ELSE NthRef(sh, o, s, n)
+
 (* The len() reported in state s *)
 LenOf(sh, o, s) ==
-    CASE o.kind \in {"indices", "freq"} -> Elements(sh) - s.pos
+    CASE o.kind \in {"indices", "freq"} -> IF s.pos > Elements(sh) THEN PanicLen ELSE Elements(sh) - s.pos
       [] o.kind = "axis" -> IF AB_AxisLenConst THEN sh[o.a] ELSE sh[o.a] - s.i
       [] o.kind = "view" -> IF AB_ViewRestart THEN ViewLenAsBuilt(sh, o, s) ELSE ViewLenRef(sh, o, s)
 
@@ -168,17 +187,21 @@ Init == /\ shape \in ShapeSet
         /\ st = IF obj.kind = "table" THEN [pos |-> 0] ELSE InitState(shape, obj)
         /\ h = <<>>
         /\ nones = 0
+        /\ budget = NthBudget
 
 Done == IF obj.kind = "table" THEN Len(h) = 1 ELSE nones = Past \/ (h # <<>> /\ h[Len(h)].next = Panic)
 
-(* One len() + next() pair on the object *)
+(* One len() + next() pair on the object, or one len() + nth(n) pair *)
+CallArgs == {-1} \cup (IF budget > 0 /\ Elements(shape) <= NthMaxCells THEN NthArgs ELSE {})
 Call == /\ obj.kind # "table"
         /\ ~Done
-        /\ LET l == LenOf(shape, obj, st)
-               x == NextOf(shape, obj, st)
-           IN  /\ st' = x.s
-               /\ h' = Append(h, [len |-> l, next |-> x.r])
-               /\ nones' = IF x.r = None THEN nones + 1 ELSE nones
+        /\ \E n \in CallArgs :
+             LET l == LenOf(shape, obj, st)
+                 x == IF n = -1 THEN NextOf(shape, obj, st) ELSE NthOf(shape, obj, st, n)
+             IN  /\ st' = x.s
+                 /\ h' = Append(h, [len |-> l, n |-> n, next |-> x.r])
+                 /\ nones' = IF x.r = None THEN nones + 1 ELSE nones
+                 /\ budget' = IF n = -1 THEN budget ELSE budget - 1
         /\ UNCHANGED <<shape, obj>>
 
 (* The stateless part of the API as one step: probes of get, get_axis and sum *)
@@ -202,7 +225,7 @@ Table(sh) ==
 Probe == /\ obj.kind = "table"
          /\ ~Done
          /\ h' = <<Table(shape)>>
-         /\ UNCHANGED <<shape, obj, st, nones>>
+         /\ UNCHANGED <<shape, obj, st, nones, budget>>
 
 Next == Call \/ Probe
 
@@ -215,9 +238,21 @@ Yielded == [j \in 1..Len(Somes(h)) |-> Somes(h)[j].next.v]
 
 IsPrefix(s, t) == Len(s) <= Len(t) /\ \A j \in 1..Len(s) : s[j] = t[j]
 
-(* C19: each item once, in order; nothing else *)
+(* items a call asks the iterator to consume: next() one, nth(n) n + 1; consumption stops at the end *)
+Demand(e) == IF e.n = -1 THEN 1 ELSE e.n + 1
+RECURSIVE DemandSum(_, _)
+DemandSum(hh, j) == IF j = 0 THEN 0 ELSE Demand(hh[j]) + DemandSum(hh, j - 1)
+ConsumedBefore(j, total) == LET d == DemandSum(h, j - 1) IN IF d > total THEN total ELSE d
+
+(* C19: each item once, in order; nothing else.  With nth() in the history: call j returns the item at *)
+(* position consumed-so-far + its demand, or None when that is past the end                           *)
 YieldsExpectedPrefix ==
-    obj.kind # "table" => IsPrefix(Yielded, Expected(shape, obj))
+    obj.kind # "table" =>
+        LET ex == Expected(shape, obj)
+            total == Len(ex)
+        IN  \A j \in 1..Len(h) :
+                LET want == ConsumedBefore(j, total) + Demand(h[j])
+                IN  h[j].next = IF want <= total THEN Some(ex[want]) ELSE None
 
 (* C19: ... and then None forever: a None is only ever seen after everything was yielded, *)
 (* and no Some follows a None                                                            *)
@@ -226,7 +261,7 @@ Fused ==
         LET total == Len(Expected(shape, obj)) IN
         \A j \in 1..Len(h) :
             h[j].next = None =>
-                /\ Len(Somes(SubSeq(h, 1, j))) = total
+                /\ ConsumedBefore(j, total) + Demand(h[j]) > total
                 /\ \A k \in j..Len(h) : h[k].next = None
 
 (* C19: the reported remaining length is the number of items still to come *)
@@ -234,7 +269,7 @@ LenExact ==
     obj.kind # "table" =>
         LET total == Len(Expected(shape, obj)) IN
         \A j \in 1..Len(h) :
-            h[j].len = total - Len(Somes(SubSeq(h, 1, j - 1)))
+            h[j].len = total - ConsumedBefore(j, total)
 
 NoPanic == \A j \in 1..Len(h) : obj.kind # "table" => h[j].next # Panic /\ h[j].len # PanicLen
 
